@@ -137,3 +137,86 @@ def explode : Nat → List Nat → List (List Nat)
     (b :: bs).take w :: explode fuel ((b :: bs).drop w)
 
 end Spg
+
+/-! ### `Tokenize` transcribed with Go's run-time checks made explicit
+
+The functions above are the specification. The ones below follow token.go statement by
+statement, and every indexing or slicing operation that Go checks at run time is an explicit
+`panic` outcome here, so that "Tokenize never panics" is a theorem about this transcription
+(C12) rather than an artefact of totalised definitions. The driver executes this version. -/
+namespace Spg
+
+/-- Outcome of the transcribed `Tokenize`. -/
+inductive TokRes (α : Type) where
+  | ok (ts : List (Token α))
+  | err
+  | panic
+  deriving Repr, DecidableEq
+
+namespace TokenizeGo
+variable {α : Type}
+
+/-- Go slice expression `chars[a:b]`: run-time panic unless `a ≤ b ≤ len(chars)`. -/
+def slice (chars : List α) (a b : Nat) : Option (List α) :=
+  if a ≤ b ∧ b ≤ chars.length then some ((chars.drop a).take (b - a)) else none
+
+/-- Go indexed store `tokens[i] = t` into a slice of length `n`, represented by the list of
+stores made so far (in index order): panics unless `i < n`. -/
+def store (n i : Nat) : Bool := decide (i < n)
+
+/-- `for i, tl := range ti[1:] { … }` of the VarAtoms and Alternating cases. `n = len(ti)-1`
+is the length of the `tokens` slice. -/
+def loopVar (chars : List α) (typeOf : Nat → Nat) (n : Nat) : Nat → Nat → List Nat → TokRes α
+  | _, _, [] => .ok []
+  | i, prevPos, tl :: rest =>
+    let newPos := prevPos + tl
+    if newPos > chars.length then .err
+    else
+      match slice chars prevPos newPos with
+      | none => .panic
+      | some v =>
+        if !store n i then .panic
+        else
+          match loopVar chars typeOf n (i + 1) newPos rest with
+          | .ok ts => .ok ({ value := v, ttype := typeOf i } :: ts)
+          | .err => .err
+          | .panic => .panic
+
+/-- `for i := 1; i < len(ti); i += 2 { tl := ti[i]; tt := ti[i+1]; … tokens[i/2] = … }` of the
+Full case; `fuel` bounds the iterations, `n = len(ti)/2` is the length of `tokens`. -/
+def loopFull (chars : List α) (ti : List Nat) (n : Nat) : Nat → Nat → Nat → TokRes α
+  | 0, _, _ => .ok []
+  | fuel + 1, i, prevPos =>
+    if i < ti.length then
+      match ti[i]?, ti[i + 1]? with
+      | some tl, some tt =>
+        let newPos := prevPos + tl
+        if newPos > chars.length then .err
+        else
+          match slice chars prevPos newPos with
+          | none => .panic
+          | some v =>
+            if !store n (i / 2) then .panic
+            else
+              match loopFull chars ti n fuel (i + 2) newPos with
+              | .ok ts => .ok ({ value := v, ttype := tt } :: ts)
+              | .err => .err
+              | .panic => .panic
+      | _, _ => .panic          -- index out of range
+    else .ok []
+
+/-- `Tokenize(pw, ti, entropy)` on the characters of `pw`, as the code executes it. -/
+def tokenize (chars : List α) (ti : List Nat) : TokRes α :=
+  match ti with
+  | [] => .err
+  | k :: rest =>
+    if k = 0 then .ok (chars.map fun c => { value := [c], ttype := atomType })
+    else if k = 1 then loopVar chars (fun _ => atomType) rest.length 0 0 rest
+    else if k = 2 then loopVar chars (fun i => if i % 2 = 1 then sepType else atomType) rest.length 0 0 rest
+    else if k = 3 then
+      if (k :: rest).length % 2 ≠ 1 then .err
+      else loopFull chars (k :: rest) ((k :: rest).length / 2) (k :: rest).length 1 0
+    else .err
+
+end TokenizeGo
+end Spg
